@@ -62,6 +62,18 @@ def gen_requests(tier, rng):
            b"\xff", b"\x80", b"a\x80", b"\xf5\x80\x80\x80", b"ab\xc3\xa9cd", b"\xef\xbf\xbd", b"\x00", b"\x7f"]
     for u in utf:
         reqs.append("string - %s" % hexs(be32(len(u)) + u + b"\x00" * pad(len(u)) + b"\x55"))
+    # the same boundary strings against a maximum below, at and above their length (which check comes first matters), all bytes present
+    for u in utf:
+        for m in sorted({0, max(len(u) - 1, 0), len(u), len(u) + 1}):
+            reqs.append("string %d %s" % (m, hexs(be32(len(u)) + u + b"\x00" * pad(len(u)) + b"\x55")))
+    # longer strings (a word-at-a-time scan has a tail): one bad byte at every position of strings of 13..23 bytes
+    for ln in range(13, 24):
+        base = bytes(48 + i % 10 for i in range(ln))
+        reqs.append("string - %s" % hexs(be32(ln) + base + b"\x00" * pad(ln)))
+        for pos in range(ln):
+            for bad in (0x80, 0xff, 0xc3):
+                u = base[:pos] + bytes([bad]) + base[pos + 1:]
+                reqs.append("string - %s" % hexs(be32(ln) + u + b"\x00" * pad(ln)))
     cnt = 400 if tier == "quick" else 20000
     for _ in range(cnt):
         ln = 1 + rng.below(4)
@@ -100,7 +112,8 @@ def gen_requests(tier, rng):
     # size helpers
     for k in ("u8", "u32", "i32", "f32", "bool", "u64", "i64", "f64", "opt_none", "opt_u32", "opt_box_u64"):
         reqs.append("ws %s" % k)
-    for k in ("bytes", "string", "string_u2", "string_u3", "string_u4", "string_mix", "vec_u8", "vec_u32", "vec_u64", "slice_u8", "slice_u32", "vec_string", "box_string"):
+    for k in ("bytes", "string", "string_u2", "string_u3", "string_u4", "string_mix", "vec_u8", "vec_u32", "vec_u64", "slice_u8", "slice_u32", "vec_string", "box_string",
+              "slice_string", "slice_vec_u32", "vec_vec_u32", "opt_string", "box_vec_u32"):
         for n in range(0, N + 8):
             reqs.append("ws %s %d" % (k, n))
     return reqs
@@ -157,6 +170,17 @@ def oracle(req):
         if k.startswith("string_"):
             b = sum(i % 4 + 1 for i in range(n)) if k == "string_mix" else n * int(k[-1])      # UTF-8 bytes, not characters
             return "ok %d" % (4 + b + pad(b))
+        # elements of different sizes (0, 1, …, n-1 items each): the size of a slice / vector is the sum over its elements
+        if k == "slice_string":
+            x = sum(4 + i + pad(i) for i in range(n)); return "ok %d" % (x + pad(x))
+        if k == "slice_vec_u32":
+            x = sum(4 + 4 * i for i in range(n)); return "ok %d" % (x + pad(x))
+        if k == "vec_vec_u32":
+            x = sum(4 + 4 * i for i in range(n)); return "ok %d" % (4 + x + pad(x))
+        if k == "opt_string":
+            return "ok %d" % (4 + 4 + n + pad(n))
+        if k == "box_vec_u32":
+            return "ok %d" % (4 + 4 * n)
         if k.startswith("vec_") or k.startswith("slice_"):
             if k == "vec_string":
                 x = sum(4 + i + pad(i) for i in range(n))
